@@ -184,7 +184,8 @@ def gen_case(seed):
         for o in script:
             if o["op"] == "write":
                 k = (o["side"], o["sid"])
-                e = ends.setdefault(k, {"t": o["t"], "n": 0, "fin": False})
+                e = ends.setdefault(k, {"t": o["t"], "n": 0, "fin": False, "ah": False})
+                e["ah"] = e["ah"] or bool(o.get("after_handshake"))
                 e["t"] = max(e["t"], o["t"])
                 e["n"] += o["n"]
                 e["fin"] = e["fin"] or o["fin"]
@@ -196,6 +197,9 @@ def gen_case(seed):
                     script.append({"t": t, "side": side, "op": "reset", "sid": sid, "code": 5})
                 else:
                     script.append({"t": t, "side": other, "op": "stop", "sid": sid, "code": 6})
+                if e["ah"]:
+                    # (lowered-limits resumption: this client must not send anything under the remembered limits)
+                    script[-1]["after_handshake"] = True
     script.sort(key=lambda o: o["t"])
     return {"seed": seed, "opts": opts, "fates": fates, "script": script, "horizon": fates["adv_seconds"] + 150.0}
 
